@@ -90,3 +90,13 @@ Proof.
   intros H1 H2 H3 H4 x0 items ops pitem probe Hi Hw _.
   apply history; try assumption. eapply inst_all_wf; eassumption.
 Qed.
+
+Lemma step_group2_prefix ops : forall s, exists k, fst (step_group2 s ops) = run2 (firstn k ops) s.
+Proof.
+  induction ops as [|o ops IH]; intros s.
+  - exists 0%nat. reflexivity.
+  - cbn [step_group2]. destruct (step2 s o) as [s1 out] eqn:E.
+    destruct (is_none (o2_err out)).
+    + destruct (IH s1) as [k Hk]. exists (S k). cbn [firstn]. unfold run2 in *. cbn [fold_left]. rewrite E. exact Hk.
+    + exists 1%nat. cbn [firstn fst]. unfold run2. cbn [fold_left]. rewrite E. reflexivity.
+Qed.
